@@ -562,7 +562,7 @@ def rerun_rate(ctx, case, n=RERUNS):
 
 
 def minimise(ctx, case, budget=5):
-    """Fewer threads / shorter workloads while the failure still shows in 20 reruns."""
+    """Fewer threads / shorter workloads while the failure still shows in 20 reruns at no less than half the rate."""
     best = case
     if case.get("kind") == "churn":
         k0, _ = rerun_rate(ctx, best)
@@ -586,7 +586,7 @@ def minimise(ctx, case, budget=5):
         progressed = False
         for c in cands:
             k, _ = rerun_rate(ctx, c)
-            if k > 0:
+            if k > 0 and 2 * k >= best_rate:      # smaller, and still failing at a useful rate (a 1/20 replay is of little use)
                 best, best_rate, progressed = c, k, True
                 break
         if not progressed:
